@@ -200,6 +200,40 @@ def pair_mods():
     return out
 
 
+def systematic_pairs():
+    """Every pair of single requests on b1 whose ranges do not overlap, in both registration orders
+    (thorough tier)."""
+    singles = []
+    for j in range(4):
+        singles.append(ins("b1", j, "mov"))
+        singles.append(ins("b1", j, "label"))
+    for j in (0, 3):
+        singles.append(ins("b1", j, "ret"))
+        singles.append(ins("b1", j, "call:s2"))
+        singles.append(ins("b1", j, "jcc_tmp"))
+    for (a, b) in ((0, 1), (1, 2), (2, 3), (0, 2), (1, 3), (0, 3)):
+        singles.append(dele("b1", a, b))
+        singles.append(rep("b1", a, b, "mov"))
+    out = []
+
+    def rng(m):
+        return (m["at"], m.get("to", m["at"]))
+
+    for i, m1 in enumerate(singles):
+        for m2 in singles[i + 1:]:
+            a, b = rng(m1), rng(m2)
+            if a[0] < b[1] and b[0] < a[1]:
+                continue  # ranges overlap
+            if m1.get("patch") == m2.get("patch") == "label":
+                continue  # would define one global label twice
+            if m1["op"] == "insert" and m2["op"] == "insert" and m1["patch"] == m2["patch"] and m1["at"] == m2["at"]:
+                continue
+            out.append([copy.deepcopy(m1), copy.deepcopy(m2)])
+            if a[0] != b[0] or (m1["op"] == "insert" and m2["op"] == "insert"):
+                out.append([copy.deepcopy(m2), copy.deepcopy(m1)])
+    return out
+
+
 def mixed_mods():
     out = [[]]
     out.append([ins("b1", 1, "rawbytes")])
@@ -242,6 +276,12 @@ def shapes(tier):
             spec = text_layout(term)
             spec["mods"] = copy.deepcopy(mods)
             out.append(("pairs/%s/%s" % (term, mods_name(mods)), spec))
+    if tier == "thorough":
+        for term in ("jcc:s0", "ret", "call:s2"):
+            for mods in systematic_pairs():
+                spec = text_layout(term)
+                spec["mods"] = mods
+                out.append(("syspairs/%s/%s" % (term, mods_name(mods)), spec))
     for b0_term in ("call:s2", "jcc:s2"):
         for mods in ([dele("b1", 0, 3)], [dele("b0", 1, 2)], [ins("b0", 2, "mov")], [dele("b2", 0, 2)],
                      [rep("b0", 1, 2, "call:s2")], [dele("b0", 0, 2)]):
@@ -410,4 +450,18 @@ def cfi_shapes(tier):
         spec = cfi_layout("split")
         spec["mods"] = copy.deepcopy(mods)
         out.append(("cfi-split/%s" % mods_name(mods), spec))
+    if tier == "thorough":
+        # every non-overlapping pair of requests on the middle block, both registration orders, on every CFI layout of .text;
+        # patches with their own directives take the place of the plain ones
+        for kind in ("one", "two", "same-offset"):
+            for mods in systematic_pairs():
+                mods = copy.deepcopy(mods)
+                for m in mods:
+                    if m.get("patch") == "label":
+                        m["patch"] = "cfi:.cfi_undefined 3"
+                    elif m.get("patch") in ("ret", "call:s2", "jcc_tmp"):
+                        m["patch"] = CFI_PATCH
+                spec = cfi_layout(kind)
+                spec["mods"] = mods
+                out.append(("cfi-%s/sys/%s" % (kind, mods_name(mods)), spec))
     return out
